@@ -29,7 +29,7 @@ STAGE_ATTR = {
     'bisim.ctx': ['C04'], 'wf.ctx': ['C04'], 'ctx.count': ['C04'], 'wf.acceptany': ['C04'],
     'wf.flags': ['C01', 'C07', 'C09'], 'flags.full': ['C01', 'C07', 'C09'], 'flags.model': ['C01', 'C12'],
     'wf.entries': ['C03', 'C09'], 'wf.targets': ['C03'], 'wf.state0': ['C03', 'C05', 'C08'], 'dispatch.': ['C03'],
-    'wf.ranges': ['C02', 'C11'], 'wf.chars': ['C02'], 'wf.eoi': ['C05'],
+    'wf.ranges': ['C02', 'C11'], 'wf.chars': ['C02'], 'wf.eoi': ['C05'], 'wf.gotolive': ['C08'], 'stageok': ['C01'],
     'compile': ['C12', 'C17'], 'dump': ['C12'], 'def': ['C12'],
 }
 TRACE_PROPS = pipeline.TRACE_PROPS + ['C14', 'C15']
